@@ -53,8 +53,12 @@ Definition proper (cl : list client) (c : cred) : bool :=
   | Basic i s | Post i s | Both i s _ =>
       match find_client cl i with
       | None => false
-      | Some k => nonempty i && String.eqb (c_secret k) s
-                  && match c_auth k with AMNone => true | AMPkjwt => false | _ => nonempty s end
+      | Some k => nonempty i
+                  && match c_auth k with
+                     | AMNone => match c with Post _ "" => true | _ => nonempty s && String.eqb (c_secret k) s end
+                     | AMPkjwt => false
+                     | _ => nonempty s && String.eqb (c_secret k) s
+                     end
       end
   end.
 
@@ -125,7 +129,7 @@ Definition gstep (cl : list client) (g : store) (o : op) (x : out) : store :=
   | Issue _ cid sub scopes, OIssued (AT a) rt =>
       let t := TRec cid sub "" scopes [cid] (expired_of cl cid) in
       match rt with RT m => add_at_rt m a t g | _ => add_at a t g end
-  | Exchange _ _ _ _ _ _ _ _, OExch _ (XOpaque (AT a) _ | XJwt (AT a) _) rt _ _ (Some t) =>
+  | Exchange _ _ _ _ _ _ _ _, OExch _ (XOpaque (AT a) _ | XJwt (AT a) _ _) rt _ _ (Some t) =>
       match rt with RT m => add_at_rt m a t g | _ => add_at a t g end
   | Revoke _ _ t _, OOk => g_revoke g (denotes t)
   | EndSession _ hint cid, ORedirect =>
